@@ -39,6 +39,30 @@ def release_sites(ctx):
                 continue
             kind, detail = classify_release_guard(ctx, b, bb)
             out.append({"body": b, "bb": bb, "t": t, "roles": roles, "kind": kind, "detail": detail})
+        # release by assignment: `holder = None`
+        for bb, si, s_ in b.stmts():
+            if s_["k"] != "assign":
+                continue
+            rv_ = s_["rv"]
+            if rv_["k"] == "use" and rv_["op"]["k"] in ("move", "copy") and not rv_["op"]["pl"]["p"]:
+                d_ = get_defs(b).unique_full(rv_["op"]["pl"]["l"])
+                if d_ and d_[0] == "stmt":
+                    rv_ = d_[3]["rv"]
+            if rv_["k"] != "agg" or rv_.get("variant") != "None" or rv_["ops"]:
+                continue
+            if not s_["pl"]["p"] and len(get_defs(b).of(s_["pl"]["l"])) < 2:
+                continue      # the temporary itself
+            ty = s_["pl"]["ty"]
+            if "mpsc::Sender" not in ty and "mpsc::bounded::Sender" not in ty:
+                continue
+            # provenance of what the place held: other definitions of the same place
+            srcs = fl.sources_place(b, s_["pl"])
+            roles, other = m.roles_of_sources(srcs, half=0)
+            roles.discard(None)
+            if not roles:
+                continue
+            kind, detail = classify_release_guard(ctx, b, bb)
+            out.append({"body": b, "bb": bb, "t": None, "roles": roles, "kind": kind, "detail": detail + " (assigned None)"})
     m._release_sites = out
     return out
 
